@@ -50,6 +50,7 @@ def _transform_parallel(
     pio_in, pio_out, depth, make_buf, do_one, cli_progress, parallel
 ):
     import multiprocessing as mp
+    from .par_util import finish_work_queue, put_work_item
 
     # Start up the workers
 
@@ -70,13 +71,12 @@ def _transform_parallel(
 
     with progress_bar(total=depth2tiles(depth), show=cli_progress) as progress:
         for pos in generate_pos(depth):
-            queue.put(pos)
+            put_work_item(queue, pos, workers, "the parallel transform")
             progress.update(1)
 
     # All done
 
-    queue.close()
-    queue.join_thread()
+    finish_work_queue(queue, workers, "the parallel transform")
     done_event.set()
 
     for w in workers:
